@@ -135,6 +135,11 @@ def check(run):
     # ---- R1 on the torch namesakes
     resolve.check_cone(run, repo, shared, 'torch namesakes')
     run.floor('R4c', 7)
+    # every phase accumulation of the port's kernels: no ipow of an operand with itself
+    from ..rules import pair as _pair
+    for q, f in sorted(repo.modules[K.TC_U].funcs.items()):
+        _pair.check_self_products(run, f)
+    run.floor('R7.self', 7)
     run.floor('R13.bcast', 8)
     run.floor('R8', 11)
     run.floor('R8.port', 6)
